@@ -25,6 +25,9 @@ pub struct Counting;
 thread_local! { static ALLOCATED: Cell<u64> = const { Cell::new(0) }; static PEAK_REQ: Cell<u64> = const { Cell::new(0) }; }
 unsafe impl GlobalAlloc for Counting {
     unsafe fn alloc(&self, l: Layout) -> *mut u8 {
+        if l.size() > limit() {
+            return std::ptr::null_mut();
+        }
         let _ = ALLOCATED.try_with(|a| a.set(a.get() + l.size() as u64));
         let _ = PEAK_REQ.try_with(|a| if l.size() as u64 > a.get() { a.set(l.size() as u64) });
         System.alloc(l)
@@ -33,11 +36,26 @@ unsafe impl GlobalAlloc for Counting {
         System.dealloc(p, l)
     }
     unsafe fn realloc(&self, p: *mut u8, l: Layout, n: usize) -> *mut u8 {
+        if n > limit() {
+            return std::ptr::null_mut();
+        }
         let _ = ALLOCATED.try_with(|a| a.set(a.get() + n as u64));
         let _ = PEAK_REQ.try_with(|a| if n as u64 > a.get() { a.set(n as u64) });
         System.realloc(p, l, n)
     }
 }
+/// Requests above CONFORM_ALLOC_LIMIT bytes fail (the process then aborts cleanly instead of
+/// exhausting the machine); unlimited when unset.
+fn limit() -> usize {
+    static LIMIT: std::sync::atomic::AtomicUsize = std::sync::atomic::AtomicUsize::new(0);
+    let _ = &LIMIT;
+    let v = LIMIT_SET.load(std::sync::atomic::Ordering::Relaxed);
+    if v != 0 { v } else { usize::MAX }
+}
+pub fn set_limit(n: usize) {
+    LIMIT_SET.store(n, std::sync::atomic::Ordering::Relaxed);
+}
+static LIMIT_SET: std::sync::atomic::AtomicUsize = std::sync::atomic::AtomicUsize::new(0);
 fn alloc_reset() {
     ALLOCATED.with(|a| a.set(0));
     PEAK_REQ.with(|a| a.set(0));
